@@ -49,6 +49,7 @@ type seqStore struct {
 	rot    int64 // rotation flush goroutines spawned and not yet finished
 	bgdone int64
 	inOp   int64 // a client command is executing: the post-rotation flush is parked until it returns
+	noQuiesce int64
 }
 
 var curStore *seqStore
@@ -64,13 +65,14 @@ func seqHook(point string, args ...interface{}) {
 	case "data.flush.enter":
 		// single-client runs: the flush that follows a rotation runs after the command that
 		// caused it has returned (deterministic order; other orders belong to the conc engine)
-		if args[1].(int) >= 0 {
+		if args[1].(int) >= 0 && curGID() != mainGID {
+			// (a flush of an older file called by the command itself — close flushing what a rotation left — is not parked)
 			for atomic.LoadInt64(&s.inOp) != 0 {
 				time.Sleep(10 * time.Microsecond)
 			}
 		}
 	case "data.flush.exit":
-		if args[1].(int) >= 0 {
+		if args[1].(int) >= 0 && curGID() != mainGID { // the goroutine spawned by a rotation (not close flushing what is left)
 			atomic.AddInt64(&s.rot, -1)
 		}
 	case "bucket.open.bgcheck.done":
@@ -79,6 +81,9 @@ func seqHook(point string, args ...interface{}) {
 }
 
 func (s *seqStore) quiesce() {
+	if atomic.LoadInt64(&s.noQuiesce) != 0 {
+		return // the post-rotation flush is parked on purpose (engine crash, mix c02)
+	}
 	for i := 0; atomic.LoadInt64(&s.rot) != 0; i++ {
 		time.Sleep(20 * time.Microsecond)
 		if i > 500000 {
